@@ -198,3 +198,210 @@ mut("c16-ctx-as-kwargs", "C16", RL, '''                    **fn_reference_with_a
                 )''', '''                    **fn_reference_with_args.effective_kwargs_with_context_args
                 )''')
 mut("c16-prevent-ignored", "C16", RL, '''    if calling_frame and calling_frame.recursive_context.prevent_further_calls:''', '''    if False and calling_frame.recursive_context.prevent_further_calls:''')
+
+# ---- C01
+mut("c01-no-consts", "C01", CH, '''                tuple([hash_if_code_object(x) for x in o.co_consts]),''', '''                tuple([hash_if_code_object(x) for x in o.co_consts if isinstance(x, CodeType)]),''')
+mut("c01-no-names", "C01", CH, '''                o.co_names,
+''', '''''')
+mut("c01-no-bytecode", "C01", CH, '''                base64.b64encode(o.co_code).decode("utf-8"),''', '''                len(o.co_code),''')
+mut("c01-skip-global-vars", "C01", CH, '''HashRule.all_rules = [
+    MementoFunctionHashRule,
+    NonMementoFunctionHashRule,
+    GlobalVariableHashRule,  # must go last
+]''', '''HashRule.all_rules = [
+    MementoFunctionHashRule,
+    NonMementoFunctionHashRule,
+]''')
+mut("c01-var-did-change-false", "C01", CH, '''        new_value = self._serialize_value(new_var)
+        return self.last_value != new_value''', '''        return False''')
+mut("c01-no-descend-helpers", "C01", CH, '''        for dep in list_dotted_names(src_fn):
+            # noinspection PyUnresolvedReferences''', '''        for dep in []:
+            # noinspection PyUnresolvedReferences''')
+mut("c01-defaults-not-hashed", "C01", CH, '''            if o is top_level_code and (defaults or kwdefaults):''', '''            if False:''')
+mut("c01-kwdefaults-not-hashed", "C01", CH, '''                        sorted([k, stable_repr(v)] for (k, v) in kwdefaults.items()),''', '''                        sorted(k for (k, v) in kwdefaults.items()),''')
+mut("c01-helper-did-change-by-name", "C01", CH, '''        new_fn = self.resolver()
+        return self.src_fn != new_fn''', '''        new_fn = self.resolver()
+        return getattr(self.src_fn, "__qualname__", None) != getattr(new_fn, "__qualname__", None)''', checks=["C01", "C13"])
+mut("c01-memento-did-change-by-type", "C01", CH, '''        return new_fn is not self.memento_fn''', '''        return False''', checks=["C01", "C13"])
+mut("c01-no-alternates-in-hash", "C01", MM, '''                if rule.alternates:
+                    # The same''', '''                if False:
+                    # The same''')
+mut("c01-wrapper-locals", "C01", CH, '''        inner_fn = inspect.unwrap(fn)''', '''        inner_fn = fn''', checks=["C01", "C14"])
+mut("c01-nested-code-not-hashed", "C01", CH, '''        if isinstance(o, CodeType):
+            sha256 = hashlib.sha256()''', '''        if isinstance(o, CodeType) and o is not top_level_code:
+            return "code"
+        if isinstance(o, CodeType):
+            sha256 = hashlib.sha256()''')
+# ---- C03
+mut("c03-frozenset-repr", "C03", CH, '''        elif isinstance(o, frozenset):
+            # repr()''', '''        elif False:
+            # repr()''')
+mut("c03-rules-unsorted", "C03", MM, '''        ordered_hash_rules = sorted(hash_rules)''', '''        ordered_hash_rules = list(hash_rules)''')
+mut("c03-hash-filename", "C03", CH, '''                o.co_flags,
+                # o.co_lnotab''', '''                o.co_flags, o.co_filename,
+                # o.co_lnotab''')
+mut("c03-hash-lineno", "C03", CH, '''                o.co_flags,
+                # o.co_lnotab''', '''                o.co_flags, o.co_firstlineno,
+                # o.co_lnotab''')
+mut("c03-generation-in-version", "C03", MM, '''        sha256 = hashlib.sha256()
+        for rule in ordered_hash_rules:''', '''        sha256 = hashlib.sha256()
+        sha256.update(str(len(MementoFunction._global_fn_version_cache)).encode())
+        for rule in ordered_hash_rules:''', checks=["C03", "C13"])
+# ---- C08
+mut("c08-memento-before-data", "C08", SB, '''        # Write data
+        result_type = memento.invocation_metadata.result_type
+        content_key = self.codec.store(
+            result_type, self._data_source, key_override, result
+        )''', '''        # Write data
+        result_type = memento.invocation_metadata.result_type
+        self._metadata_source.put_memento(memento)
+        content_key = self.codec.store(
+            result_type, self._data_source, key_override, result
+        )''')
+mut("c08-ioerror-not-swallowed", "C08", RL, '''                except IOError:
+                    log.warning(
+                        "IO Error while writing memoized result.", exc_info=True
+                    )
+                    memoization_status = "memoization failed to write result"''', '''                except FileExistsError:
+                    memoization_status = "memoization failed to write result"''')
+MUTANTS.append({"id": "c08-link-in-place-and-exists", "property": "C08", "edits": [
+    (SF, '''            os.replace(str(tmp_path), str(non_versioned_path))''', '''            open(str(non_versioned_path), "w").write(open(str(tmp_path)).read())
+            os.unlink(str(tmp_path))'''),
+    (SF, '''            result = path.is_file()''', '''            result = path.exists()''')]})
+mut("c08-data-link-before-object", "C08", SF, '''        with versioned_path.open(mode="wb") as f:
+            shutil.copyfileobj(data, f)
+        self._write_non_versioned_link(versioned_key)''', '''        versioned_path.touch()
+        self._write_non_versioned_link(versioned_key)
+        with versioned_path.open(mode="wb") as f:
+            shutil.copyfileobj(data, f)''')
+# ---- C09
+mut("c09-no-recheck-in-mutex", "C09", RL, '''            existing_memento = storage_backend.get_memento(
+                fn_reference_with_args.fn_reference_with_arg_hash()
+            )
+            if existing_memento:
+                existing_memento_result = process_existing_memento(''', '''            existing_memento = None
+            if existing_memento:
+                existing_memento_result = process_existing_memento(''')
+mut("c09-fresh-lock", "C09", RL, '''    with _memento_fn_mutex_lock:
+        return _memento_fn_mutex[
+            (
+                fn_reference_with_args.fn_reference.qualified_name,
+                fn_reference_with_args.arg_hash,
+            )
+        ]''', '''    return RLock()''')
+mut("c09-cache-unlocked-put", "C09", SB, '''    @_synchronized
+    def put(''', '''    def put(''')
+mut("c09-cache-unlocked-read", "C09", SB, '''    @_synchronized
+    def read_result(''', '''    def read_result(''')
+mut("c09-shared-call-stack", "C09", "twosigma/memento/call_stack.py", '''_call_stack_thread_local = threading.local()''', '''class _Shared:
+    pass
+
+
+_call_stack_thread_local = _Shared()''')
+# ---- C12
+mut("c12-greedy-cluster", "C12", RF, '''r"((?P<cluster>.*?)::)?''', '''r"((?P<cluster>.*)::)?''')
+mut("c12-version-first-hash", "C12", RF, '''(#(?P<version>.*))?$"''', '''(#(?P<version>[^#]*))?"''')
+mut("c12-escape-one-side", "C12", SF, '''            entries = list(walk_path())''', '''            entries = [DataSourceKey(e.key.replace("::", ":")) for e in walk_path()]''')
+mut("c12-default-cluster-assert", "C12", "twosigma/memento/external.py", '''        if fn_reference is None:
+            fn_reference = FunctionReference(
+                memento_fn=self,''', '''        assert fn_reference or cluster_name is not None, "Cluster name is required"
+        if fn_reference is None:
+            fn_reference = FunctionReference(
+                memento_fn=self,''')
+mut("c12-raise-instead-of-external", "C12", RF, '''            except (ModuleNotFoundError, ValueError, AttributeError):
+                # Cannot find module or function. Treat as an external function reference.
+                external = True''', '''            except (ModuleNotFoundError, AttributeError):
+                # Cannot find module or function. Treat as an external function reference.
+                external = True''')
+mut("c12-stale-served-as-current", "C12", RF, '''        if version is not None and memento_fn.version() != version:''', '''        if False:''')
+# ---- C13
+mut("c13-no-generation-bump", "C13", MM, '''            MementoFunction.increment_global_fn_generation(
+                reason="registered new function {}".format(''', '''            (lambda **kw: None)(
+                reason="registered new function {}".format(''', checks=["C13", "C01"])
+mut("c13-skip-did-change-scan", "C13", MM, '''                    if rule.did_change() or any(r.did_change() for r in rule.alternates)''', '''                    if False''', checks=["C13", "C01"])
+mut("c13-entry-version-call", "C13", MM, '''                        self._calculated_version = entry.version
+''', '''                        self._calculated_version = entry.version()
+''')
+mut("c13-undefined-never-changes", "C13", CH, '''        if self.ref_is_global_table:
+            return self.symbol in self.ref
+
+        return hasattr(self.ref, self.symbol)''', '''        return False''')
+# ---- C14
+mut("c14-detected-all-first-level", "C14", CH, '''                required=False,
+                root_fn=root_fn,
+                first_level=memento_fn is root_fn,''', '''                required=False,
+                root_fn=root_fn,
+                first_level=True,''')
+mut("c14-stop-at-first-memento", "C14", CH, '''        # Add transitive dependencies:
+        memento_fn = self.memento_fn
+''', '''        # Add transitive dependencies:
+        memento_fn = self.memento_fn
+        if memento_fn is not root_fn:
+            return
+''', checks=["C14", "C01"])
+mut("c14-ignore-attribute-chains", "C14", CH, '''            eval_attr_result = eval_attr(node)
+            if eval_attr_result is not None:
+                self.references.add(eval_attr_result)''', '''            eval_attr_result = None''', checks=["C14", "C01"])
+mut("c14-validate-direct-only", "C14", MM, '''            for fn in caller.dependencies().transitive_memento_fn_dependencies()''', '''            for fn in caller.dependencies().direct_memento_fn_dependencies()''')
+mut("c14-no-validation", "C14", MM, '''        if (
+            caller.qualified_name_without_version != self.qualified_name_without_version
+            and self.fn_reference().qualified_name not in valid_fns
+        ):''', '''        if False:''')
+mut("c14-fnarg-nested-not-allowed", "C14", MM, '''            elif isinstance(arg, dict):
+                for element in arg.values():
+                    refs |= extract_refs(element)''', '''            elif isinstance(arg, dict):
+                pass''')
+mut("c14-explicit-no-rules", "C14", MM, '''        if self.explicit_version is not None:
+            # The version is static, but the dependencies can (and, for the dependency
+            # graph, must) still be collected
+            self._recompute_version()''', '''        pass''')
+# ---- C15
+mut("c15-stop-at-first-exception", "C15", RL, '''                except Exception as e:
+                    results.append(e)
+        return results''', '''                except Exception as e:
+                    results.append(e)
+                    break
+        return results''')
+mut("c15-reverse-order", "C15", BA, '''        if raise_first_exception:
+            for r in result:
+                if isinstance(r, Exception):
+                    raise r
+''', '''        if raise_first_exception:
+            for r in reversed(result):
+                if isinstance(r, Exception):
+                    raise r
+''')
+mut("c15-batch-dedupe", "C15", RL, '''        for idx, f in enumerate(arg_list):
+            existing_memento_result = ExistingMementoResult(''', '''        seen_ = {}
+        for idx, f in enumerate(arg_list):
+            if f.arg_hash in seen_:
+                continue
+            seen_[f.arg_hash] = idx
+            existing_memento_result = ExistingMementoResult(''')
+mut("c15-map-range-positional", "C15", BA, '''        return {value_list[idx]: result_list[idx] for idx in range(0, len(value_list))}''', '''        return {v: result_list[i] for i, v in enumerate(sorted(set(value_list)))}''')
+# ---- C18
+mut("c18-cache-from-config-ignored", "C18", SF, '''        if memory_cache_mb is None:
+            memory_cache_mb = config.get("memory_cache_mb", None)
+''', '''''')
+mut("c18-todict-no-metadata-path", "C18", SF, '''        if self.metadata_config_path != self.config_path:
+            config["metadata_path"] = self.metadata_config_path
+''', '''''')
+mut("c18-config-overrides-arg", "C18", SF, '''        config_path = config.get("path", None)
+        if path is not None:
+            config_path = path''', '''        config_path = config.get("path", None)
+        if path is not None and config_path is None:
+            config_path = path''')
+mut("c18-last-repo-wins", "C18", CF, '''        for repo in self.repos:
+            if cluster_name in repo.clusters:
+                return repo.clusters[cluster_name]
+        return None''', '''        for repo in reversed(self.repos):
+            if cluster_name in repo.clusters:
+                return repo.clusters[cluster_name]
+        return None''')
+mut("c18-prepend-appends", "C18", CF, '''        self.repos.insert(0, repo)''', '''        self.repos.append(repo)''')
+mut("c18-runner-config-ignored", "C18", CF, '''            runner_type = runner_config["type"]
+            self.runner = RunnerBackend.create(runner_type, runner_config)''', '''            runner_type = _DEFAULT_RUNNER_TYPE
+            self.runner = RunnerBackend.create(runner_type, runner_config)''')
+mut("c18-todict-readonly-lost", "C18", SF, '''        if self.read_only is not None:
+            config["readonly"] = self.read_only
+        if self.config_path is not None:''', '''        if self.config_path is not None:''')
